@@ -667,11 +667,16 @@ func (x *Exec) do(o Op) error {
 		if _, err := te.LoadTemplateFromDocument("t", d); err != nil {
 			return err
 		}
-		first, err := te.RenderTemplateToDocument("t", o.Data.TD())
+		td1 := o.Data.TD()
+		first, err := te.RenderTemplateToDocument("t", td1)
 		if err != nil {
 			return err
 		}
-		second, err := te.RenderTemplateToDocument("t", o.Data2.TD())
+		td2 := o.Data2.TD()
+		if o.b(1) { // the caller reuses ONE TemplateData object for both renders
+			td2 = td1
+		}
+		second, err := te.RenderTemplateToDocument("t", td2)
 		if err != nil {
 			return err
 		}
